@@ -705,7 +705,7 @@ func (d *dealer) syncCall(caller *wamp.Session, msg *wamp.Call) {
 		abortMsg.Details[wamp.OptMessage] = "Peer is trying to use Progressive Call Invocations while it was not " +
 			"announced during HELLO handshake"
 		d.trySend(caller, &abortMsg)
-		caller.Close()
+		endSession(caller)
 		return
 	}
 
@@ -784,7 +784,7 @@ func (d *dealer) syncCall(caller *wamp.Session, msg *wamp.Call) {
 				abortMsg.Details[wamp.OptMessage] = "Peer is trying to use Payload PassThru Mode while it was not " +
 					"announced during HELLO handshake"
 				d.trySend(caller, &abortMsg)
-				caller.Close()
+				endSession(caller)
 				return
 			}
 
@@ -1151,7 +1151,7 @@ func (d *dealer) syncYield(callee *wamp.Session, msg *wamp.Yield, progress, canR
 			abortMsg.Details = wamp.Dict{}
 			abortMsg.Details[wamp.OptMessage] = ErrPPTNotSupportedByPeer.Error()
 			d.trySend(callee, &abortMsg)
-			callee.Close()
+			endSession(callee)
 			return false
 		}
 
